@@ -123,6 +123,9 @@ OVERLOADS = {
     ('fill_rect', 8): ('Image_fill_rect', ''),
     ('mask_blit', 10): ('Image_mask_blit_rgb', ''),
     ('mask_blit_dst', 10): ('Image_mask_blit_dst_rgb', ''),
+    ('blit', 7): ('Image_blit', ''),
+    ('blend_blit', 7): ('Image_blend_blit', ''),
+    ('blend_blit', 8): ('Image_blend_blit_alpha', ''),
     ('set_alpha_from_mask_color', 3): ('Image_set_alpha_from_mask_color', ''),
     ('draw_line', 8): ('Image_draw_line', ''),
     ('draw_horizontal_line', 8): ('Image_draw_horizontal_line', ''),
@@ -198,7 +201,7 @@ def propagate(body, where=''):
     # the statements generated by lower_try are already followed by their own check
     names = ['Image_read_pixel', 'Image_write_pixel', 'Image_read_pixel_c', 'Image_write_pixel_c', 'Image_fill_rect', 'Image_clear',
              'Image_mask_blit_rgb', 'Image_mask_blit_dst_rgb', 'Image_set_alpha_from_mask_color', 'Image_draw_line',
-             'Image_draw_horizontal_line', 'Image_draw_vertical_line', 'verif_cb32', 'verif_cb64']
+             'Image_draw_horizontal_line', 'Image_draw_vertical_line', 'Image_blit', 'Image_blend_blit', 'Image_blend_blit_alpha', 'verif_cb32', 'verif_cb64']
     out, _ = propagate_exc(body, names, '')
     return re.sub(r' if \(verif_exc\) return;( if \(verif_exc\) goto verif_catch_\d+;)', r'\1', out)
 
@@ -584,14 +587,21 @@ def canvas_unit(ctx, src):
             slope.append('double x_line_slope(ssize_t dy, ssize_t dx)\n{\n  return %s;\n}\n' % mo.group(1).strip())
             return 'double derror = x_line_slope(dy, dx);'
         return re.sub(r'double derror = ([^;]*);', one, body)
-    LINE_INV = ('__CPROVER_assigns(x, y, error, verif_exc, %s)\n' % DG +
+    LINE_INV = ('__CPROVER_assigns(x, y, error, verif_exc, %s, LINE_G)\n' % DG +
                 '__CPROVER_loop_invariant(x0 <= x && x <= x1 + 1 && verif_exc == 0 && -2 * C07_CMAX < y && y < 2 * C07_CMAX && y - y0 <= x - x0 && y0 - y <= x - x0)\n'
+                # the ghost path record (contracts/C07_image.h): one attempt per step, connected, starts at (x0, y0) of the walk
+                '__CPROVER_loop_invariant(g_conn && g_ln == (size_t)(x - x0))\n'
+                '__CPROVER_loop_invariant(g_ln > 0 ==> (steep ? (g_fx == y0 && g_fy == x0) : (g_fx == x0 && g_fy == y0)))\n'
+                '__CPROVER_loop_invariant(g_ln > 0 ==> (steep ? (g_ly == x - 1 && C07_NEAR(g_lx, y)) : (g_lx == x - 1 && C07_NEAR(g_ly, y))))\n'
                 '__CPROVER_loop_invariant(%s || %s)\n' % (D_IS_O, COL) +
                 '__CPROVER_decreases(x1 - x)')
     txt = u.function(src, CC, sig('void Image::draw_line(ssize_t x0, ssize_t y0, ssize_t x1, ssize_t y1, uint64_t r, uint64_t g, uint64_t b, uint64_t a)'),
                      new_header='void Image_draw_line(Image* self, ssize_t x0, ssize_t y0, ssize_t x1, ssize_t y1, uint64_t r, uint64_t g, uint64_t b, uint64_t a)',
                      rules=[Rule(r'(?<![>.\w])(width|height)\b', r'self->\1', regex=True, count='+'), Rule(r'\babs\(', 'labs(', regex=True, count='+')] +
-                     std_rules(extra=[Fn(slope_rule)]), nloops=1, loops={1: LINE_INV}, body_prefix=SAVE_O, emit=False)
+                     std_rules(extra=[Fn(slope_rule)]) +
+                     # ghost: record every pixel handed to write_pixel (path facts of the contract)
+                     [Rule(r'\bImage_write_pixel\(self, (\w+), (\w+), ', r'C07_LINE_STEP(\1, \2); Image_write_pixel(self, \1, \2, ', regex=True, count='+')],
+                     nloops=1, loops={1: LINE_INV}, body_prefix=SAVE_O, emit=False)
     u.parts.append('#ifndef C07_ARITH_MODEL\n' + ''.join(slope) + '#endif\n')
     u.parts.append(txt)
     u.function(src, CC, sig('void Image::draw_line(ssize_t x0, ssize_t y0, ssize_t x1, ssize_t y1, uint32_t c)'),
@@ -721,7 +731,8 @@ def plan(ctx):
     G('mask_blit_dst(uint32)', 'mask_blit_dst_c', 'Image::mask_blit_dst(.., color)', 'Image_mask_blit_dst_c', replace=['Image_mask_blit_dst_rgb'], defines=[INT_DIM])
     G('mask_blit(mask)', 'mask_blit_mask', 'Image::mask_blit(.., mask)', 'Image_mask_blit_mask', replace=CL, loops=True)
     G('blend_blit', 'blend_blit', 'Image::blend_blit', 'Image_blend_blit', replace=CL, loops=True, defines=[INT_DIM])
-    G('blend_blit(alpha)', 'blend_blit_alpha', 'Image::blend_blit(.., source_alpha)', 'Image_blend_blit_alpha', replace=CL, loops=True,
+    # (a sibling overload called from the body is bound to its own contract; absent replace targets are dropped by the pipeline)
+    G('blend_blit(alpha)', 'blend_blit_alpha', 'Image::blend_blit(.., source_alpha)', 'Image_blend_blit_alpha', replace=CL + ['Image_blend_blit', 'Image_blit'], loops=True,
       defines=[INT_DIM])
     G('custom_blit(uint32)', 'custom_blit_c', 'Image::custom_blit(.., fn(uint32_t&, uint32_t))', 'Image_custom_blit_c',
       replace=CL, loops=True, defines=[INT_DIM])
